@@ -5,10 +5,23 @@
    (2) the decoding layer: what each well-formed encoded event decodes to - headers and control events with or
        without CRC32 (Props/C16.v), table maps (Props/C15.v), rows events and images for v1/v2 and 4/6-byte table
        ids (Props/C09.v), every cell type (Props/C10..C14.v).
-   The composition for concrete histories is exercised end to end by the harness (model, implementation through
-   the parseEvents hook, and the real Stream() against the fake master are compared with the unit-level oracle). *)
-From GB Require Import Base.Prelude Model.Events Model.Streamer Spec.Units.
-From GB Require Import Proofs.StreamProofs Proofs.StreamProofs2 Proofs.StreamProofs3.
+   (3) the capstone C01_e2e_fidelity composes (1) and (2) into one closed theorem over well-formed binlogs served
+       as bytes (Spec/Binlog.v: wire events, grammar, denotation `abs`/`denote`, wf_binlog;
+       Proofs/DecodeProofs.v: what `decode` returns for each wire event; Proofs/Capstone.v: induction over the
+       grammar).  It is universally quantified over the configuration (CRC32 on/off, rows v1/v2, 4/6-byte table
+       ids, header length 19..255, size table 35..255 entries), the mapper, the oracles and the start position,
+       allows GTID / anonymous GTID / previous-GTIDs / heartbeat / other ignorable events and repeated format
+       descriptions between any two events, and covers every column type with every NULL / absent pattern
+       (JSON columns: NULL or absent only - Spec.Values has no JSON value; JSON values are C14).
+       C01_e2e_fidelity_from is the same for a dump started at any unit boundary.
+   The composition for concrete histories (JSON columns included) is also exercised end to end by the harness
+   (model, implementation through the parseEvents hook, and the real Stream() against the fake master are compared
+   with the unit-level oracle). *)
+From Coq Require Import String.
+From GB Require Import Base.Prelude Model.Events Model.Rbr Model.Streamer Spec.Units.
+From GB Require Import Spec.EncHeader Spec.Values Spec.EncEvent Spec.Expect Spec.EventSpec Spec.Binlog.
+From GB Require Import Proofs.ImageProofs Proofs.TableMapProofs Proofs.RowsProofs Proofs.RowsAll Proofs.CellAll.
+From GB Require Import Proofs.StreamProofs Proofs.StreamProofs2 Proofs.StreamProofs3 Proofs.Capstone.
 Open Scope Z_scope.
 
 Theorem C01_fidelity_given_decoding : forall ffmt tz jsonp verdict mp,
@@ -37,3 +50,178 @@ Example C01_nonvacuous :
   filter (fun a => negb (quiet a)) (ANop :: AFormat format_zero :: ABegin :: ANop :: stmt_event {| st_ev := e; st_next := 200; st_ts := 7 |} :: [ACommit 230 8])
     = events [UTx [{| st_ev := e; st_next := 200; st_ts := 7 |}] 230 8].
 Proof. split; vm_compute; reflexivity. Qed.
+
+(* ---- the capstone ---- *)
+
+(* For every configuration c, table mapper mp, oracles (tz bounded), start position p and binlog b that is
+   well-formed for c and mp: the bytes the master serves for b - fake rotate, format description, the events of
+   the units with ignorable events anywhere - make parseEvents (every handler call accepted) return the final
+   boundary position, the transactions of the units b denotes (exactly one per committing unit, in commit order,
+   with their changes, images, timestamps and position labels), and no error. *)
+Theorem C01_e2e_fidelity : forall ffmt tz jsonp mp c b p,
+  (forall v, -86400 <= tz v <= 86400) ->
+  wf_binlog c mp b ->
+  parse_events ffmt tz jsonp (fun _ => true) mp p (map (wire c) (serve b)) =
+    (snd (spec_run p (denote ffmt tz mp b)),
+     map (fun t => (t, true)) (fst (spec_run p (denote ffmt tz mp b))),
+     OEnd).
+Proof. exact e2e_fidelity. Qed.
+Print Assumptions C01_e2e_fidelity.
+
+(* every valid start position: a dump started at the boundary after the first k units (any fake rotate in front)
+   delivers exactly the remaining transactions, which are the rest of what the whole binlog delivers *)
+Theorem C01_e2e_fidelity_from : forall ffmt tz jsonp mp c b p k h name pos crc,
+  (forall v, -86400 <= tz v <= 86400) ->
+  wf_binlog c mp b -> wf_whdr h -> fits c (WRotate h name pos crc) ->
+  let us := denote ffmt tz mp b in
+  let q := snd (spec_run p (firstn k us)) in
+  parse_events ffmt tz jsonp (fun _ => true) mp q (map (wire c) (serve (serve_from b k h name pos crc))) =
+    (snd (spec_run p us), map (fun t => (t, true)) (fst (spec_run q (skipn k us))), OEnd) /\
+  fst (spec_run p us) = fst (spec_run p (firstn k us)) ++ fst (spec_run q (skipn k us)).
+Proof. exact e2e_fidelity_from. Qed.
+Print Assumptions C01_e2e_fidelity_from.
+
+(* the keyword table of the specification is the one of the code, and the type codes named as ignorable are *)
+Example C01_spec_tables :
+  keywords = GBGen.Consts.statementPrefixes /\ forallb ignorable_type ignorable_types = true /\
+  forallb (fun t => negb (ignorable_type t)) handled_types = true.
+Proof. repeat split; vm_compute; reflexivity. Qed.
+
+(* ---- non-vacuity: two tables (the second with a JSON column, NULL or absent in every row), CRC32 on, 23-byte headers, v2 rows events; previous-GTIDs and anonymous GTID
+        events; a transaction that logs both table maps first (multi-table statement), then an update of 2 rows
+        of the first table (NULL and absent columns, different presence patterns before / after), an ignorable
+        event and a SAVEPOINT statement, two rows events for the second table (a large statement split in two), closed by XID; a heartbeat;
+        a DDL; a rotation followed by the next file's format description; an autocommitted table map + rows ---- *)
+Definition e_cfg : cfg := {| c_crc := true; c_v2 := true; c_tid4 := false; c_hlen := 23; c_nsizes := 40 |}.
+Definition e_ffmt (b x : Z) : bytes := [49].
+Definition e_tz (x : Z) : Z := 0.
+Definition e_jsonp (b : bytes) : res bytes := Err EJson.
+
+Definition e_t1 : table_def :=
+  {| td_id := 70; td_flags := 1; td_db := str "shop"; td_name := str "orders";
+     td_cols := [(TLong, false); (TVarchar 300 false, true); (TNewDecimal 10 2, true); (TDateTime2 3, true); (TTiny, true)];
+     td_optional := [] |}.
+Definition e_t2 : table_def :=
+  {| td_id := 71; td_flags := 1; td_db := str "shop"; td_name := str "log";
+     td_cols := [(TLongLong, false); (TBlob 2 252, true); (TJson 4, true)]; td_optional := [1; 2] |}.
+Definition e_ti1 : tinfo :=
+  {| ti_name := (str "shop", str "orders");
+     ti_cols := [(str "id", false); (str "customer", false); (str "total", false); (str "placed", false); (str "qty", true)] |}.
+Definition e_ti2 : tinfo := {| ti_name := (str "shop", str "log"); ti_cols := [(str "seq", true); (str "msg", false); (str "meta", false)] |}.
+Definition e_mp : mapper := fun db name =>
+  if bytes_eqb db (str "shop") && bytes_eqb name (str "orders") then Some e_ti1
+  else if bytes_eqb db (str "shop") && bytes_eqb name (str "log") then Some e_ti2 else None.
+
+Definition e_h (ts nx : Z) : whdr := {| w_ts := ts; w_sid := 1; w_next := nx; w_flags := 0 |}.
+Definition e_q (ts nx : Z) (kw tail : string) : wquery :=
+  {| wq_h := e_h ts nx; wq_thread := 9; wq_exec := 0; wq_err := 0;
+     wq_vars := [(0, [0; 0; 0; 0]); (1, [0; 0; 0; 0; 0; 0; 0; 0]); (4, [33; 0; 33; 0; 8; 0])];
+     wq_db := str "shop"; wq_kw := str kw; wq_tail := str tail; wq_crc := [1; 2; 3; 4] |}.
+
+Definition e_upd : rows_def :=
+  {| rd_kind := 1; rd_id := 70; rd_flags := 1; rd_extra := [];
+     rd_before := [[CVal (VInt 5); CAbsent; CAbsent; CAbsent; CNull]; [CVal (VInt 6); CAbsent; CAbsent; CAbsent; CVal (VInt 200)]];
+     rd_after := [[CAbsent; CVal (VBytes (str "ann")); CVal (VDecimal false [0; 0; 0; 0; 0; 1; 2; 3] [4; 5]); CNull; CVal (VInt 3)];
+                  [CAbsent; CNull; CVal (VDecimal true [0; 0; 0; 0; 0; 0; 0; 7] [0; 0]); CVal (VDateTime 2020 1 2 3 4 5 123); CNull]] |}.
+Definition e_ins : rows_def :=
+  {| rd_kind := 0; rd_id := 71; rd_flags := 0; rd_extra := []; rd_before := [];
+     rd_after := [[CVal (VInt 18446744073709551615); CVal (VBytes (str "paid")); CNull]] |}.
+Definition e_ins2 : rows_def :=
+  {| rd_kind := 0; rd_id := 71; rd_flags := 1; rd_extra := [7]; rd_before := [];
+     rd_after := [[CVal (VInt 1); CNull; CAbsent]; [CVal (VInt 2); CVal (VBytes []); CAbsent]] |}.
+Definition e_del : rows_def :=
+  {| rd_kind := 2; rd_id := 71; rd_flags := 1; rd_extra := []; rd_before := [[CVal (VInt 1); CAbsent; CAbsent]]; rd_after := [] |}.
+
+Definition e_b : binlog :=
+  {| b_fake_h := e_h 0 0; b_fake_name := str "bin.000001"; b_fake_pos := 4; b_fake_crc := [];
+     b_fmt_h := e_h 1600000000 124; b_version := str "5.7.30-log"; b_fmt_crc := [9; 9; 9; 9];
+     b_units :=
+       [([WPrevGtids (e_h 1600000000 155) [0; 0; 0; 0; 0; 0; 0; 0] []; WAnonGtid (e_h 1600000001 220) 0 (repeat 0 16) 0 []],
+         WTx (e_q 1600000001 300 "BeGiN" "")
+             [([], IMap (e_h 1600000001 360) e_t1 []);
+              ([], IMap (e_h 1600000001 400) e_t2 []);
+              ([], IRows (e_h 1600000001 470) e_t1 e_upd []);
+              ([WOther (e_h 1600000001 470) 28 (str "x") []; WQuery (e_h 1600000001 470) 9 0 0 [] (str "shop") (str "SAVEPOINT sp1") []],
+               IRows (e_h 1600000002 520) e_t2 e_ins []);
+              ([], IRows (e_h 1600000002 570) e_t2 e_ins2 [])]
+             [] (CXid (e_h 1600000002 601) 77 []));
+        ([WHeartbeat (e_h 0 0) (str "bin.000001") []],
+         WAuto (SQuery (e_q 1600000003 750 "create" " table t (a int)")));
+        ([], WRot (e_h 1600000004 800) (str "bin.000002") 4 []);
+        ([WFormat (e_h 1600000005 124) (str "5.7.30-log") []],
+         WAuto (SQuery (e_q 1600000006 260 "SET" " @a = 1")));
+        ([], WAuto (SRows (e_h 1600000007 300) e_t2 [] [WGtid (e_h 1600000007 300) 1 (repeat 7 16) 5 []] (e_h 1600000007 350) e_del []))];
+     b_tail := [WHeartbeat (e_h 0 0) (str "bin.000002") []] |}.
+Definition e_p : position := {| p_file := str "bin.000001"; p_off := 220 |}.
+
+(* evaluated through parse_events: the result is the one the specification computes for the denoted units ... *)
+Example C01_e2e_example :
+  parse_events e_ffmt e_tz e_jsonp (fun _ => true) e_mp e_p (map (wire e_cfg) (serve e_b)) =
+  (snd (spec_run e_p (denote e_ffmt e_tz e_mp e_b)),
+   map (fun t => (t, true)) (fst (spec_run e_p (denote e_ffmt e_tz e_mp e_b))), OEnd).
+Proof. vm_compute. reflexivity. Qed.
+
+(* ... namely four transactions with chained labels, ending in the second file; the update carries both rows with
+   absent (true, None), NULL (false, None) and value cells *)
+Example C01_e2e_example_values :
+  let '(p, txs, o) := parse_events e_ffmt e_tz e_jsonp (fun _ => true) e_mp e_p (map (wire e_cfg) (serve e_b)) in
+  p = {| p_file := str "bin.000002"; p_off := 350 |} /\ o = OEnd /\
+  map (fun tb => (p_off (t_now (fst tb)), p_off (t_next (fst tb)), snd tb)) txs = [(220, 601, true); (601, 750, true); (4, 260, true); (260, 350, true)] /\
+  map (fun tb => option_map (map (fun e => (se_type e, se_table e))) (t_events (fst tb))) txs =
+    [Some [(5, (str "shop", str "orders")); (4, (str "shop", str "log")); (4, (str "shop", str "log"))];
+     Some [(7, ([], []))]; Some [(12, ([], []))]; Some [(6, (str "shop", str "log"))]] /\
+  match txs with
+  | (t, _) :: _ =>
+    match t_events t with
+    | Some (u :: _) =>
+      map (map (fun c => (c_empty c, c_data c))) (se_ids u) =
+        [[(false, Some (str "5")); (true, None); (true, None); (true, None); (false, None)];
+         [(false, Some (str "6")); (true, None); (true, None); (true, None); (false, Some (str "200"))]] /\
+      map (map (fun c => (c_empty c, c_data c))) (se_values u) =
+        [[(true, None); (false, Some (str "ann")); (false, Some (str "123.45")); (false, None); (false, Some (str "3"))];
+         [(true, None); (false, None); (false, Some (str "-7.00")); (false, Some (str "2020-01-02 03:04:05.123")); (false, None)]]
+    | _ => False
+    end
+  | _ => False
+  end.
+Proof. vm_compute. repeat split; reflexivity. Qed.
+
+(* and the binlog satisfies the hypothesis of the capstone *)
+Ltac e_arith := vm_compute; repeat split; first [reflexivity | (let H := fresh in intro H; discriminate H)].
+Ltac e_query :=
+  unfold wf_query; split; [e_arith|]; split; [unfold fits; vm_compute; reflexivity|];
+  split; [vm_compute; reflexivity|]; split; [vm_compute; reflexivity|];
+  split; [intros x Hx Hc; subst x; vm_compute in Hx; intuition discriminate|];
+  split; [first [left; reflexivity | right; vm_compute; eexists; reflexivity]|vm_compute; reflexivity].
+Ltac e_gap := unfold wf_gap; repeat (apply Forall_cons; [cbn [ignorable]; unfold fits, wf_version; e_arith|]); apply Forall_nil.
+Ltac e_images := unfold wf_images; repeat (apply Forall_cons; [vm_compute; reflexivity|]); apply Forall_nil.
+Ltac e_table :=
+  unfold wf_table; split; [unfold wf_table_def; repeat split; try (vm_compute; congruence); repeat constructor|];
+  eexists; split; reflexivity.
+Ltac e_rows :=
+  unfold wf_rows; split; [e_arith|]; split; [unfold fits; vm_compute; reflexivity|]; split; [reflexivity|];
+  unfold wf_rows_def; split; [vm_compute; tauto|]; split; [e_arith|]; split; [vm_compute; reflexivity|];
+  split; [vm_compute; congruence|]; split; intros _; e_images.
+Ltac e_map := cbn [wf_item]; split; [e_arith|]; split; [unfold fits; vm_compute; reflexivity|e_table].
+
+Example C01_e2e_example_wf : wf_binlog e_cfg e_mp e_b.
+Proof.
+  unfold wf_binlog. split; [reflexivity|]. split; [e_arith|]. split; [unfold fits; vm_compute; reflexivity|].
+  split; [e_arith|]. split; [unfold wf_version; e_arith|]. split; [|e_gap].
+  cbn [b_units e_b].
+  apply Forall_cons; [cbn [fst snd]; split; [e_gap|]|].
+  { cbn [wf_unit]. split; [e_query|]. split; [|split; [e_gap|cbn [wf_close]; split; [e_arith|unfold fits; vm_compute; reflexivity]]].
+    cbn [wf_body known_after]. unfold announce. cbn [filter].
+    split; [e_gap|]. split; [e_map|].
+    split; [e_gap|]. split; [e_map|].
+    cbn [td_id e_t1 e_t2 Z.eqb Pos.eqb negb filter].
+    split; [e_gap|]. split; [cbn [wf_item]; split; [right; left; reflexivity|e_rows]|].
+    split; [e_gap|]. split; [cbn [wf_item]; split; [left; reflexivity|e_rows]|].
+    split; [e_gap|]. split; [cbn [wf_item]; split; [left; reflexivity|e_rows]|]. exact I. }
+  apply Forall_cons; [cbn [fst snd]; split; [e_gap|cbn [wf_unit wf_stmt]; e_query]|].
+  apply Forall_cons; [cbn [fst snd]; split; [e_gap|cbn [wf_unit]; split; [e_arith|split; [unfold fits; vm_compute; reflexivity|e_arith]]]|].
+  apply Forall_cons; [cbn [fst snd]; split; [e_gap|cbn [wf_unit wf_stmt]; e_query]|].
+  apply Forall_cons; [cbn [fst snd]; split; [e_gap|]|].
+  { cbn [wf_unit wf_stmt]. split; [e_arith|]. split; [unfold fits; vm_compute; reflexivity|]. split; [e_table|]. split; [e_gap|e_rows]. }
+  apply Forall_nil.
+Qed.
